@@ -1142,6 +1142,37 @@ pub fn gen_ops(r: &mut Rng, p: &GenParams, n_clients: u8, cfg: &Cfg, page: u32) 
             }
         }
     }
+    // swarm knob: byte-identical uploads. Payloads are opaque, so nothing forbids a client from
+    // sending the very same snapshot bytes for a newer version, or the same history segment twice
+    // (two replicas producing the same snapshot; a repeated edit). Storage layers that compare or
+    // de-duplicate blobs only show themselves then.
+    if r.chance(14, 100) {
+        let mut last_snap: std::collections::BTreeMap<u8, Pay> = Default::default();
+        let mut last_seg: std::collections::BTreeMap<u8, Pay> = Default::default();
+        for op in ops.iter_mut() {
+            match op {
+                Op::AddSnapshot { c, pay, ch, .. } => {
+                    if let Some(prev) = last_snap.get(c) {
+                        if r.chance(45, 100) {
+                            *pay = prev.clone();
+                            *ch = Chunking::Whole;
+                        }
+                    }
+                    last_snap.insert(*c, pay.clone());
+                }
+                Op::AddVersion { c, pay, ch, .. } => {
+                    if let Some(prev) = last_seg.get(c) {
+                        if r.chance(25, 100) {
+                            *pay = prev.clone();
+                            *ch = Chunking::Whole;
+                        }
+                    }
+                    last_seg.insert(*c, pay.clone());
+                }
+                _ => {}
+            }
+        }
+    }
     ops
 }
 
